@@ -794,6 +794,45 @@ Proof.
       try assumption; try reflexivity; [exact hi_crops_ok_example | exact ex_clock2_wf].
 Qed.
 
+(* the same parameter set with a water table 5 m deep at initialisation (below every compartment: nothing is saturated) *)
+Definition par_t : DPar R :=
+  {| p_soil := p_soil DaySideP.Ex.par; p_irr := p_irr DaySideP.Ex.par; p_fallow_irr := p_fallow_irr DaySideP.Ex.par;
+     p_field := p_field DaySideP.Ex.par; p_fallow_field := p_fallow_field DaySideP.Ex.par; p_crop := p_crop DaySideP.Ex.par;
+     p_fallow_crop := p_fallow_crop DaySideP.Ex.par; p_water_table := 1; p_co2c := p_co2c DaySideP.Ex.par; p_co2r := p_co2r DaySideP.Ex.par;
+     p_evap_steps := p_evap_steps DaySideP.Ex.par; p_sim_off := false |}.
+
+Example season_table_example :
+  hi_crops_ok DaySideP.Ex.crops /\ p_sim_off par_t = false /\ p_water_table par_t = 1%Z /\
+  so_nComp (p_soil par_t) = Z.of_nat (length (so_prof (p_soil par_t))) /\ fresh_like par_t par_t 1 /\
+  exists s_init, init_state par_t 0 (Some 5) false ex_th0 = Some s_init /\
+    d_thini (phys ex_stp) = d_thini s_init /\
+    proj_fc (reset par_t 1 [] (phys ex_stp)) = proj_fc s_init /\
+    forall ws T T' n,
+      gres_rel (run_rel {| st := start_season' par_t 1 ws ex_stp 150; tabs := T |}
+                        {| st := with_phys (start_season' par_t 1 ws ex_stp 150) s_init; tabs := T' |})
+        (run_steps_c par_t DaySideP.Ex.crops ex_clock2 ws (S n) {| st := start_season' par_t 1 ws ex_stp 150; tabs := T |})
+        (run_steps_c par_t DaySideP.Ex.crops ex_clock2 ws (S n)
+                     {| st := with_phys (start_season' par_t 1 ws ex_stp 150) s_init; tabs := T' |}).
+Proof.
+  assert (Hfl : fresh_like par_t par_t 1) by (apply fresh_like_same_crop; reflexivity).
+  split; [exact hi_crops_ok_example|]. split; [reflexivity|]. split; [reflexivity|]. split; [reflexivity|]. split; [exact Hfl|].
+  assert (Hs : init_wt_in_soil 5 (so_prof (p_soil par_t)) = false).
+  { unfold init_wt_in_soil, gw_wt_in_soil.
+    cbn [par_t p_soil DaySideP.Ex.par DaySideP.Ex.soil so_prof TranspirationR.ex_p TranspirationR.ex_comp existsb c_zmid]. rnum.
+    GroundwaterR.rdecide. reflexivity. }
+  destruct (init_state_defined_table par_t 0 5 false ex_th0 eq_refl Hs) as (s & E & _ & _ & Eth).
+  exists s. split; [exact E|].
+  assert (H1 : d_thini (phys ex_stp) = d_thini s).
+  { destruct (init_state_inv _ _ _ _ _ _ E) as (z & b & fc & th & _ & Es). rewrite Es in Eth |- *. cbn [d_th d_thini] in *. rewrite Eth. reflexivity. }
+  split; [exact H1|].
+  assert (H2 : proj_fc (reset par_t 1 [] (phys ex_stp)) = proj_fc s)
+    by (apply (reset_matches_init_table par_t par_t 1 [] (phys ex_stp) (Some 5) false ex_th0 s); try assumption; reflexivity).
+  split; [exact H2|].
+  intros ws T T' n. apply season_table_run_steps; [exact hi_crops_ok_example | reflexivity | reflexivity | |].
+  - apply in_season_started; [exact ex_clock2_wf | reflexivity].
+  - apply (reset_matches_init_table par_t par_t 1 ws (phys ex_stp) (Some 5) false ex_th0 s); try assumption; reflexivity.
+Qed.
+
 Print Assumptions reset_matches_init.
 Print Assumptions run_steps_carry_no_table.
 Print Assumptions run_till_carry_no_table.
@@ -820,3 +859,4 @@ Print Assumptions season_table_run_till.
 Print Assumptions season_indep_run_table.
 Print Assumptions perform_c_new_season.
 Print Assumptions season_indep_example.
+Print Assumptions season_table_example.
